@@ -196,7 +196,9 @@ def run_case(case):
             bad("fit does not return self", "")
         if ext.n_output_features_ != len(powers):
             bad("n_output_features_", "%r != %d" % (ext.n_output_features_, len(powers)))
-        for X in (Xf, Xi, Xf[:1], Xf[:0]):
+        # also the same values stored in the non-native byte order (arrays read from big-endian files: FITS, netCDF, numpy.fromfile)
+        for X in (Xf, Xi, Xf[:1], Xf[:0], Xf.astype(Xf.dtype.newbyteorder()), Xi.astype(Xi.dtype.newbyteorder()),
+                  numpy.asfortranarray(Xf.astype(Xf.dtype.newbyteorder()))):
             got = ext.transform(X)
             exp = ref.transform(X) if X.shape[0] else numpy.empty((0, len(powers)))
             if got.shape != exp.shape:
